@@ -146,6 +146,27 @@ func (o Operand) goValue() interface{} {
 		}
 		return s
 	case "num":
+		if o.Lit != "" { // an integer that is not a double: hand over exactly that integer
+			switch o.Via {
+			case "i64":
+				n, err := strconv.ParseInt(o.Lit, 10, 64)
+				must(err)
+				return n
+			case "int":
+				n, err := strconv.ParseInt(o.Lit, 10, 64)
+				must(err)
+				return int(n)
+			case "u64":
+				n, err := strconv.ParseUint(o.Lit, 10, 64)
+				must(err)
+				return n
+			case "uint":
+				n, err := strconv.ParseUint(o.Lit, 10, 64)
+				must(err)
+				return uint(n)
+			}
+			panic("c05: Lit with channel " + o.Via)
+		}
 		x := parseLit(o.N)
 		switch o.Via {
 		case "f64":
@@ -303,7 +324,62 @@ func retLit(m MethodSpec) string {
 // ---- model side of operands --------------------------------------------------------------------------
 
 type modelEnv struct {
-	a *m05.Obj // object of slot A (for aliases)
+	a      *m05.Obj // object of slot A (for aliases)
+	protos *Protos  // scripted Number/String/Boolean.prototype methods of the case (nil: stock)
+}
+
+// Protos scripts valueOf/toString of the wrapper prototypes for one case. Modes are those of O
+// objects plus "stock" (the built-in method stays) and "deleted" (the property is removed, so
+// Object.prototype's method is found instead).
+type Protos struct {
+	Number  *ObjSpec `json:"number,omitempty"`
+	String  *ObjSpec `json:"string,omitempty"`
+	Boolean *ObjSpec `json:"boolean,omitempty"`
+}
+
+func (p *Protos) of(kind string) *ObjSpec {
+	if p == nil {
+		return nil
+	}
+	switch kind {
+	case "num":
+		return p.Number
+	case "str":
+		return p.String
+	case "bool":
+		return p.Boolean
+	}
+	return nil
+}
+
+// install renders the statements that script the prototypes and the statements that restore them.
+func (p *Protos) install(idx int) (pre, post []string) {
+	if p == nil {
+		return nil, nil
+	}
+	for _, c := range []struct {
+		ctor string
+		spec *ObjSpec
+	}{{"Number", p.Number}, {"String", p.String}, {"Boolean", p.Boolean}} {
+		if c.spec == nil {
+			continue
+		}
+		nm := fmt.Sprintf("__p%s%d", c.ctor, idx)
+		pre = append(pre, fmt.Sprintf("%s=__pset(%s,%q,%s,%q,%s);", nm, c.ctor, c.spec.V.Mode, retLit(c.spec.V), c.spec.T.Mode, retLit(c.spec.T)))
+		post = append(post, fmt.Sprintf("__prest(%s,%s);", c.ctor, nm))
+	}
+	return pre, post
+}
+
+// wrapperMethod is the model of what [[DefaultValue]] finds under name on a wrapper of the class.
+func wrapperMethod(spec *MethodSpec, stock m05.Method, objectProto m05.Method) m05.Method {
+	switch {
+	case spec == nil || spec.Mode == "stock":
+		return stock
+	case spec.Mode == "deleted":
+		return objectProto
+	}
+	return methodModel(*spec)
 }
 
 func primModel(o Operand) m05.Value {
@@ -351,6 +427,12 @@ func (env *modelEnv) model(o Operand, slot string) m05.Value {
 		ob := &m05.Obj{ID: slot, Proto: scn["objProto"],
 			ValueOf:  m05.Method{Mode: m05.MPrim, Ret: inner, Quiet: true},
 			ToString: m05.Method{Mode: m05.MPrim, Ret: m05.Str(text), Quiet: true}}
+		if spec := env.protos.of(o.Inner.K); spec != nil {
+			class := map[string]string{"bool": "Boolean", "num": "Number", "str": "String"}[o.Inner.K]
+			// deleted: Object.prototype.valueOf returns the object (15.2.4.4), Object.prototype.toString "[object Class]" (15.2.4.2)
+			ob.ValueOf = wrapperMethod(&spec.V, ob.ValueOf, m05.Method{Mode: m05.MInherit})
+			ob.ToString = wrapperMethod(&spec.T, ob.ToString, m05.Method{Mode: m05.MPrim, Ret: m05.StrASCII("[object " + class + "]"), Quiet: true})
+		}
 		if inner.K == m05.String { // 15.5.5: index and length properties
 			ob.Proto, ob.Indexed, ob.Props = scn["strProto"], true, indexProps(len(inner.S))
 		}
@@ -489,6 +571,17 @@ function __mk(id,vm,vr,tm,tr,date){
  return o;
 }
 function __holder(tag,v){var h={};Object.defineProperty(h,"p",{get:function(){__log.push(tag);return v;}});return h;}
+function __pm(name,mode,ret){
+ if(mode==="undef")return undefined;
+ if(mode==="noncall")return {};
+ return function(){var tag=this.__id+"."+name;__log.push(tag); if(mode==="throw")throw "boom:"+tag; if(mode==="obj")return {}; return ret;};
+}
+function __pset(C,vm,vr,tm,tr){var P=C.prototype,s=[P.valueOf,P.toString];
+ if(vm==="deleted")delete P.valueOf; else if(vm!=="stock")P.valueOf=__pm("valueOf",vm,vr);
+ if(tm==="deleted")delete P.toString; else if(tm!=="stock")P.toString=__pm("toString",tm,tr);
+ return s;}
+function __prest(C,s){Object.defineProperty(C.prototype,"valueOf",{value:s[0],writable:true,enumerable:false,configurable:true});
+ Object.defineProperty(C.prototype,"toString",{value:s[1],writable:true,enumerable:false,configurable:true});}
 var __TE={__id:"throws-TypeError"}, __XE={__id:"throws-other"};
 function __in(a,b){try{return a in b}catch(e){return (e instanceof TypeError)?__TE:__XE}}
 function __io(a,b){try{return a instanceof b}catch(e){return (e instanceof TypeError)?__TE:__XE}}
@@ -599,10 +692,11 @@ func must(err error) {
 type script struct {
 	r    rendering
 	expr string
+	post []string // run after the case (restores scripted prototypes)
 }
 
 func (s script) text(idx int) string {
-	return fmt.Sprintf("%s__log=[];try{__rec(%d,0,%s,__log.join())}catch(__e){__rec(%d,1,__e,__log.join())}\n", strings.Join(s.r.pre, ""), idx, s.expr, idx)
+	return fmt.Sprintf("%s__log=[];try{__rec(%d,0,%s,__log.join())}catch(__e){__rec(%d,1,__e,__log.join())}%s\n", strings.Join(s.r.pre, ""), idx, s.expr, idx, strings.Join(s.post, ""))
 }
 
 // runScripts evaluates the cases in one program (one parse), falling back to one program per case
@@ -621,8 +715,8 @@ func runScripts(ss []script) []obs {
 		delete(m.recs, k)
 	}
 	r := harness.Run(m.vm, b.String())
-	if r.Panicked {
-		mach = nil // the runtime may be in a bad state
+	if r.Panicked || r.Err != nil {
+		mach = nil // the runtime may be in a bad state (scripted prototypes not restored)
 	}
 	if (r.Panicked || r.Err != nil) && len(ss) > 1 {
 		for i, s := range ss {
